@@ -356,6 +356,19 @@ def _build_alphabet():
     A("torch.narrow(dim=0,start=1,length=2)", S, lambda x, c: torch.narrow(x, dim=0, start=1, length=2))
     A("index_select(dim=0,index=(2,0))", S, lambda x, c: x.index_select(dim=0, index=torch.tensor([2, 0])))
     A("index_select(-ndim,(2,0))", S, lambda x, c: x.index_select(-x.ndim, torch.tensor([2, 0])))
+    A("index_select(0,index=(2,0))", S, lambda x, c: x.index_select(0, index=torch.tensor([2, 0])))
+    A("index_select(dim=-ndim,index=(2,0))", S, lambda x, c: x.index_select(dim=-x.ndim, index=torch.tensor([2, 0])))
+    A("torch.index_select(dim=0,index=(2,0))", S, lambda x, c: torch.index_select(x, dim=0, index=torch.tensor([2, 0])))
+    A("torch.index_select(-ndim,(2,0))", S, lambda x, c: torch.index_select(x, -x.ndim, torch.tensor([2, 0])))
+    A("torch.index_select(input=x,dim=0,index=(2,0))", S, lambda x, c: torch.index_select(input=x, dim=0, index=torch.tensor([2, 0])))
+    A("narrow(dim=0,start=1,length=2)", S, lambda x, c: x.narrow(dim=0, start=1, length=2))
+    A("narrow(dim=-ndim,start=1,length=2)", S, lambda x, c: x.narrow(dim=-x.ndim, start=1, length=2))
+    A("narrow(0,1,length=2)", S, lambda x, c: x.narrow(0, 1, length=2))
+    A("narrow(0,-2,2)", S, lambda x, c: x.narrow(0, -2, 2))
+    A("torch.narrow(-ndim,1,2)", S, lambda x, c: torch.narrow(x, -x.ndim, 1, 2))
+    A("torch.narrow(0,start=1,length=2)", S, lambda x, c: torch.narrow(x, 0, start=1, length=2))
+    A("torch.narrow(0,-2,2)", S, lambda x, c: torch.narrow(x, 0, -2, 2))
+    A("select(-ndim,1)", S, lambda x, c: x.select(-x.ndim, 1))
     C = "cat"
     A("cat(x,x)", C, lambda x, c: torch.cat([x, x]))
     A("cat(x,x;0)", C, lambda x, c: torch.cat([x, x], 0))
@@ -370,6 +383,14 @@ def _build_alphabet():
     A("cat(x,x;dim=-1)", C, lambda x, c: torch.cat([x, x], dim=-1))
     A("cat(x,zeros_plain;dim=0)", C, lambda x, c: torch.cat([x, c.zeros(x)], dim=0), menu=True)
     A("cat(zeros_plain,x;dim=0)", C, lambda x, c: torch.cat([c.zeros(x), x], dim=0))
+    A("cat(x,other)", C, lambda x, c: torch.cat([x, c.other()]))
+    A("cat(x,other;0)", C, lambda x, c: torch.cat([x, c.other()], 0))
+    A("cat(tuple(x,other);dim=0)", C, lambda x, c: torch.cat((x, c.other()), dim=0))
+    A("cat(tensors=(x,other),dim=0)", C, lambda x, c: torch.cat(tensors=[x, c.other()], dim=0))
+    A("cat(other,x;-ndim)", C, lambda x, c: torch.cat([c.other(), x], -x.ndim))
+    A("cat(x,x;-ndim+1)", C, lambda x, c: torch.cat([x, x], -x.ndim + 1))
+    A("stack(x,other;0)", C, lambda x, c: torch.stack([x, c.other()], 0))
+    A("stack(x,other;dim=-1)", C, lambda x, c: torch.stack([x, c.other()], dim=-1))
     A("vstack(x,other)", C, lambda x, c: torch.vstack([x, c.other()]))
     A("concat(x,other;dim=0)", C, lambda x, c: torch.concat([x, c.other()], dim=0))
     A("cat(x,other;-ndim)", C, lambda x, c: torch.cat([x, c.other()], -x.ndim))
@@ -410,6 +431,24 @@ def _build_alphabet():
     A("split(1,-ndim)", P, lambda x, c: x.split(1, -x.ndim))
     A("split(1,dim=-ndim)", P, lambda x, c: x.split(1, dim=-x.ndim))
     A("tensor_split(tensor(1,2))", P, lambda x, c: x.tensor_split(torch.tensor([1, 2])))
+    A("split(list(1,n-1);0)", P, lambda x, c: x.split(_sizes0(x), 0))
+    A("split(list(1,n-1),dim=-ndim)", P, lambda x, c: x.split(_sizes0(x), dim=-x.ndim))
+    A("split(split_size=1,dim=0)", P, lambda x, c: x.split(split_size=1, dim=0))
+    A("torch.split(1;0)", P, lambda x, c: torch.split(x, 1, 0))
+    A("torch.split(1;-ndim)", P, lambda x, c: torch.split(x, 1, -x.ndim))
+    A("torch.split(list(1,n-1),dim=-ndim)", P, lambda x, c: torch.split(x, _sizes0(x), dim=-x.ndim))
+    A("split_with_sizes(list(1,n-1);0)", P, lambda x, c: x.split_with_sizes(_sizes0(x), 0))
+    A("split_with_sizes(list(1,n-1),dim=-ndim)", P, lambda x, c: x.split_with_sizes(_sizes0(x), dim=-x.ndim))
+    A("tensor_split(list(1);0)", P, lambda x, c: x.tensor_split([1], 0))
+    A("tensor_split(list(1),dim=-ndim)", P, lambda x, c: x.tensor_split([1], dim=-x.ndim))
+    A("tensor_split(2;-ndim)", P, lambda x, c: x.tensor_split(2, -x.ndim))
+    A("tensor_split(n,dim=0)", P, lambda x, c: x.tensor_split(x.shape[0], dim=0))
+    A("tensor_split(indices=list(1),dim=0)", P, lambda x, c: x.tensor_split(indices=[1], dim=0))
+    A("tensor_split(sections=2,dim=0)", P, lambda x, c: x.tensor_split(sections=2, dim=0))
+    A("torch.tensor_split(2;-ndim)", P, lambda x, c: torch.tensor_split(x, 2, -x.ndim))
+    A("torch.tensor_split(list(1,2);0)", P, lambda x, c: torch.tensor_split(x, [1, 2], 0))
+    A("chunk(2,-ndim)", P, lambda x, c: x.chunk(2, -x.ndim))
+    A("unbind(-ndim)", P, lambda x, c: x.unbind(-x.ndim))
     A("hsplit(2)", P, lambda x, c: x.hsplit(2))
     A("unsafe_split(1)", P, lambda x, c: x.unsafe_split(1))
     O = "reorder"
@@ -426,6 +465,29 @@ def _build_alphabet():
     A("roll(1)", O, lambda x, c: x.roll(1))
     A("torch.roll(1,dims=0)", O, lambda x, c: torch.roll(x, 1, dims=0))
     A("flipud()", O, lambda x, c: x.flipud())
+    # every call form of flip / roll with the batch dim in each argument position
+    A("flip(2,0)", O, lambda x, c: x.flip(2, 0))
+    A("flip(1,-ndim)", O, lambda x, c: x.flip(1, -x.ndim))
+    A("flip(-1,0)", O, lambda x, c: x.flip(-1, 0))
+    A("flip(tuple(0,2))", O, lambda x, c: x.flip((0, 2)))
+    A("flip(tuple(2,0))", O, lambda x, c: x.flip((2, 0)))
+    A("flip(list(2,0))", O, lambda x, c: x.flip([2, 0]))
+    A("flip(list(0))", O, lambda x, c: x.flip([0]))
+    A("flip(dims=(2,0))", O, lambda x, c: x.flip(dims=(2, 0)))
+    A("flip(dims=list(-ndim))", O, lambda x, c: x.flip(dims=[-x.ndim]))
+    A("torch.flip((2,0))", O, lambda x, c: torch.flip(x, (2, 0)))
+    A("torch.flip(dims=(0,))", O, lambda x, c: torch.flip(x, dims=(0,)))
+    A("torch.flip(dims=list(2,-ndim))", O, lambda x, c: torch.flip(x, dims=[2, -x.ndim]))
+    A("torch.flipud", O, lambda x, c: torch.flipud(x))
+    A("roll((1,1),(2,0))", O, lambda x, c: x.roll((1, 1), (2, 0)))
+    A("roll((1,),(0,))", O, lambda x, c: x.roll((1,), (0,)))
+    A("roll(list(1,1),list(2,0))", O, lambda x, c: x.roll([1, 1], [2, 0]))
+    A("roll(shifts=(1,1),dims=(2,0))", O, lambda x, c: x.roll(shifts=(1, 1), dims=(2, 0)))
+    A("roll(1,dims=-ndim)", O, lambda x, c: x.roll(1, dims=-x.ndim))
+    A("roll((1,2),(-ndim,0))", O, lambda x, c: x.roll((1, 1), (-x.ndim, 0)))
+    A("torch.roll((1,1),(2,0))", O, lambda x, c: torch.roll(x, (1, 1), (2, 0)))
+    A("torch.roll(shifts=1,dims=0)", O, lambda x, c: torch.roll(x, shifts=1, dims=0))
+    A("torch.roll(shifts=(1,1),dims=(2,-ndim))", O, lambda x, c: torch.roll(x, shifts=(1, 1), dims=(2, -x.ndim)))
     A("flip(dims=(0,))", O, lambda x, c: x.flip(dims=(0,)))
     A("flip(-ndim)", O, lambda x, c: x.flip(-x.ndim))
     A("roll(shifts=1,dims=0)", O, lambda x, c: x.roll(shifts=1, dims=0))
@@ -525,6 +587,8 @@ MENU2 = MENU + [
     "roll(1,2)", "rot90(2,(0,2))", "take_along_dim(perm,0)", "reversed", "permute(1,0,rest)", "repeat(1,2,1s)",
     "repeat_interleave(2,dim=0)", "flatten(0,1)", "reshape(same)", "interpolate(scale=2)", "max_pool(1)", "avg_pool(2)",
     "float()", "to(same_dtype)", "long()", "contiguous()", "data", "torch.save_load",
+    "flip(2,0)", "roll((1,1),(2,0))", "narrow(dim=-ndim,start=1,length=2)", "index_select(dim=-ndim,index=(2,0))",
+    "tensor_split(list(1),dim=-ndim)", "cat(other,x;-ndim)",
 ]
 assert all(n in OPS for n in MENU2) and len(set(MENU2)) == len(MENU2)
 
